@@ -10,7 +10,7 @@ from . import model as M
 from .extract import AnalysisBroken, ALL_CONFIGS, DEFAULT_CONFIG, REPO
 
 VERIF = os.path.dirname(os.path.dirname(os.path.abspath(__file__)))
-EVIDENCE_DIR = os.path.join(VERIF, "evidence")
+EVIDENCE_DIR = os.environ.get("SC3D_EVIDENCE_DIR") or os.path.join(VERIF, "evidence")   # override: development sweeps only
 REPLAY_DIR = os.path.join(EVIDENCE_DIR, "replay")
 KNOWN = os.path.join(VERIF, "known_findings.json")
 
